@@ -752,6 +752,33 @@ fn gen_case(rng: &mut Rng, n: usize, tier: &str, scratch: &std::path::Path, out:
                     ops.push(key_op(*rng.pick(&[Esc, Enter, Tab]), none));
                     ops.push(key_op(Enter, none));
                 }
+                _ if !selecting && rng.chance(1, 5) => {
+                    // a break (or glue) set with Tab inside the buffer, then a choice for the range that starts
+                    // exactly there, then more typing: the break must survive the choice (seeded change C04-B)
+                    for _ in 0..(2 + rng.below(3)) {
+                        let i = rng.below(world.syls.len() as u64) as usize;
+                        for k in &world.keys[i] {
+                            ops.push(key_op(*k, none));
+                        }
+                    }
+                    for _ in 0..(1 + rng.below(3)) {
+                        ops.push(key_op(Left, none));
+                    }
+                    ops.push(key_op(Tab, none));
+                    if rng.chance(1, 3) {
+                        ops.push(key_op(Tab, none));
+                    }
+                    ops.push(key_op(Down, none));
+                    for _ in 0..rng.below(2) {
+                        ops.push(key_op(Down, none));
+                    }
+                    ops.push(digit(rng));
+                    ops.push(key_op(End, none));
+                    let i = rng.below(world.syls.len() as u64) as usize;
+                    for k in &world.keys[i] {
+                        ops.push(key_op(*k, none));
+                    }
+                }
                 0 if world.chain.is_some() => {
                     // overlapping choices: type a b c d, choose at 0, at 2, then at 1
                     let c = world.chain.unwrap();
